@@ -7,6 +7,34 @@ ids = [p["id"] for p in props]
 
 # id -> (technique, level text, level note, design ref)
 claimed = {
+ "C02": ("explicit-state exploration of write/commit/maintenance histories on the real code with an independent reference implementation of the IAVL+ rules as hash oracle; read-only calls explored as bounded deviations",
+         "Every SaveVersion hash, the WorkingHash before it, Hash() and the hash of every retained version in every explored state are compared with an independent implementation of the documented insertion/removal/rebalancing/versioning/hashing rules (check/ref), over all write histories on a 7-key set (all rotation cases) and over 3-key histories with reopen / prune / rollback-and-redo / export-import points, under 13 configurations incl. non-default initial versions; each of 12 kinds of read-only call is inserted at every position (bounded number per history) and must not change any later hash.",
+         "Trusted: check/ref (written from the docs, no shared code). Bounded: key sets of 3 and 7 keys, depth and deviation bounds in the evidence.",
+         "DESIGN.md §4 C02"),
+ "C03": ("explicit-state exploration; in every state every proof of every retained version and of the working tree is verified with the upstream ics23 verifier against the reference root hash, including negative verifications",
+         "For every explored state, every retained non-empty version and the working tree, and every probe key (present, below min, above max, between neighbours, prefix/extension): right kind of proof, verifies against the reference root, carries the stored value / the adjacent neighbours, and does not verify for another value, another key, the opposite claim, or the root of another version where the claim is false; wrong-kind requests are errors.",
+         "Trusted: github.com/cosmos/ics23/go v0.11.0 and check/ref. Values are non-empty (ics23 rejects empty values by specification).",
+         "DESIGN.md §4 C03"),
+ "C07": ("explicit-state exploration in which every (re)open chooses fast index on/off and the version to load; oracle = indexed answers vs tree-walk answers vs model, plus the decoded raw index after commits and opens",
+         "In every explored state with the index enabled: Get vs GetWithIndex, MutableTree.Iterator/Iterate (index+overlay, both directions) vs tree walk vs model, GetVersioned and ImmutableTree.Get vs tree walk for every retained version; after commit/open/load/rollback/import the raw f-entries (independent decoder) equal the latest version's pairs and the label names the latest version.",
+         "Bounded: 2-3 keys, depth and maintenance bounds in the evidence.",
+         "DESIGN.md §4 C07"),
+ "C08": ("explicit-state exploration of tree states; in every state all (start,end,direction) triples from a bound set are run on every iteration interface and compared with the model's range",
+         "For every explored state (empty, committed, working with uncommitted additions/updates/removals, historical versions) and all (start,end,direction) over nil, empty, stored keys, neighbours, prefixes, extensions, outside keys: ImmutableTree.Iterator (walk or persisted index), the explicit walk iterator, MutableTree.Iterator (index + uncommitted changes), IterateRange, IterateRangeInclusive, Iterate yield exactly the model's sequence, end invalid for good, and callbacks that stop at every position stop there.",
+         "Bounded: 3 keys x values {x, empty}, <= 3 versions, depth bound in the evidence.",
+         "DESIGN.md §4 C08"),
+ "C11": ("explicit-state exploration of insert/remove/commit histories; oracle = reference height/size, AVL bound, rank/key inverse, and storage reads counted by the instrumented store",
+         "All histories of inserts/removes/commits over a 7-key set up to the depth bound (plus maintenance histories on 3 keys): Height/Size equal the reference, h <= 1.4405 log2(n+2), GetByIndex/GetWithIndex inverse and sorted (reads oracle), and with cache 0 / index off every Get, Has, GetWithIndex, GetByIndex reads <= 2h+2 stored nodes and GetProof <= 10h+10 (counted by vstore).",
+         "Bounded: <= 8 keys, depth bound in the evidence.",
+         "DESIGN.md §4 C11"),
+ "C12": ("explicit-state exploration of crash-free histories with synchronous pruning; after every step the raw storage is decoded independently and compared with reachability from the model's retained versions",
+         "After every transition of every explored history (commits with/without writes, repeated partial deletions, rollbacks both ways, reopenings, imports): the set of stored node records equals the set reachable from the roots of the retained versions (nothing missing, nothing left behind, root markers only for retained versions), and the persisted fast index equals the latest version's pairs.",
+         "Trusted: check/ref/codec.go. Bounded: 2-3 keys, depth <= 9, <= 3 maintenance steps.",
+         "DESIGN.md §4 C12"),
+ "C14": ("explicit-state exploration incl. no-op commits, empty/one-leaf trees, prune, rollback, reopen at latest or older version and re-commit; oracle = version range of the model on the live instance, on a fresh instance and on scratch instances",
+         "After every step: AvailableVersions, GetLatestVersion, VersionExists(v), GetImmutable(v), GetVersioned/GetVersionedProof(k,v) for every v in 0..latest+1 agree with the model's contiguous range on the live instance and on a fresh instance opened on a copy of the storage; LoadVersion(v) on scratch instances succeeds iff v is retained and leaves the tree usable; SaveVersion numbers are consecutive from 1 / the initial version; re-commit of an existing version succeeds iff the hash is identical and leaves the storage byte-identical either way.",
+         "Bounded: 2 keys, depth <= 8, <= 3 maintenance steps; InitialVersion in {unset,1,7}.",
+         "DESIGN.md §4 C14"),
  "C01": ("explicit-state exploration of operation histories on the real code (BFS, canonical complete-state de-duplication) with a versioned-map reference model as oracle",
          "All histories over {Set, Remove, Set(nil), SaveVersion, Rollback, reopen with changed options, LoadVersion, DeleteVersionsTo, LoadVersionForOverwriting} on 3 colliding keys x 2 values up to the depth / maintenance bound listed in the evidence are executed on the real iavl code under 13+ configurations (cache, fast index, flush threshold, sync, initial version, MemDB/PrefixDB/GoLevelDB); after every transition every read of the working state and of every retained version is compared with the model.",
          "Trusted: the Go toolchain, the harness (vstore, model, reference tree; the model cross-checks its map against the reference tree on every commit). Bounded: 3 keys, depth bound, <=2 maintenance operations per history.",
